@@ -439,6 +439,29 @@ func ruleInferredOrderDedup(c *Ctx, rule string) {
 				if l, ok := x.Tuple.(*ssa.Lookup); ok && x.Index == 1 {
 					lk = l
 				}
+			case *ssa.Call:
+				// hasProperty(s, name): a package predicate that answers with the ok of a lookup in its schema's properties
+				if h := x.Call.StaticCallee(); h != nil && c.P.InPkg(h) && !g.Pol {
+					answers := false
+					core.EachInstr(h, func(j ssa.Instruction) {
+						if ret, ok := j.(*ssa.Return); ok && len(ret.Results) == 1 {
+							if ex, ok := ret.Results[0].(*ssa.Extract); ok && ex.Index == 1 {
+								if l, ok := ex.Tuple.(*ssa.Lookup); ok && c.mentionsField(l.X, "Schema.Properties", 4) {
+									if _, isParam := l.Index.(*ssa.Parameter); isParam {
+										answers = true
+									}
+								}
+							}
+						}
+					})
+					if answers {
+						for _, a := range x.Call.Args {
+							if a == key || sharesSource(a, key) || a == mu.Key {
+								own = true
+							}
+						}
+					}
+				}
 			}
 			if lk == nil || g.Pol {
 				continue
